@@ -229,6 +229,19 @@ def run(ctx):
                             if fitted and reg.lower() != "none":
                                 rt = nrater.get_rater(regressor=reg, training_set=copy.deepcopy(ts), names=nm, lda=lda)
                                 c = rt.rate(datasets=idnt)[0]
+                                # ... and what it computes "from the curve's features": the samples entry point, fed with
+                                # the feature vector in the order of the rater's names
+                                from nanite.rate.features import IndentationFeatures as _IF
+                                try:
+                                    with np.errstate(all="ignore"):
+                                        fv = [float(getattr(_IF(idnt), n_)()) for n_ in rt.names]
+                                    cs = rt.rate(samples=np.atleast_2d(fv))[0]
+                                except BaseException as e:  # noqa
+                                    cs = "raises " + repr(e)
+                                if not (cs == a or (isinstance(cs, float) and np.isnan(cs) and np.isnan(a))):
+                                    ctx.violation("differs-from-rater-on-features",
+                                                  f"rate_quality gives {a!r}, the standalone rater fed with the curve's "
+                                                  f"features (rate(samples=...)) gives {cs!r}", {"input": meta})
                                 if c != a:
                                     ctx.violation("differs-from-standalone-rater",
                                                   f"rate_quality gives {a}, the standalone rater {c}", {"input": meta})
